@@ -2,7 +2,7 @@
 Lifecycle.tla (lifecycle typestate with a resource ledger) generates the histories; each is executed once and N more
 times with real executors in a fresh interpreter and the parent's resource counts are compared (E-REAL); the exact
 ledger of modelled processes/threads per exit path is judged by Mon_Exec[C20] on E-SIM executions."""
-import os, sys, json
+import os, sys, json, time
 sys.path.insert(0, os.path.dirname(os.path.dirname(os.path.abspath(__file__))))
 from vlib import runner, tlc
 from checks import exec_common, exec_findings
@@ -10,24 +10,54 @@ import concurrent.futures as cf
 
 
 def run(ctx):
+    t0 = time.time()
+    ph = ctx.extra.setdefault("phase_seconds", {})
     tlc.stage(ctx.work)
     tlc.sany(ctx.work, "MC_Lifecycle")
-    cfg = "MC_Lifecycle_%s.cfg" % ("thorough" if ctx.tier == "thorough" else "quick")
-    res = tlc.check(ctx.work, "MC_Lifecycle", cfg, workers=4, timeout=900, coverage=False)
-    ctx.add_tlc(res, "Lifecycle.tla (%s)" % cfg)
+    sw = json.load(open(os.path.join(runner.ROOT, "specs", "code_switches.json")))["CloseReaderOnKill"]
+
+    def cfg_with(name, base, val):
+        with open(os.path.join(ctx.work, name), "w") as fh:
+            fh.write(open(os.path.join(ctx.work, base)).read().replace("CloseReaderOnKill = TRUE", "CloseReaderOnKill = " + val))
+        return name
+    # (1) the property on the design, with the switch describing the code
+    res = tlc.check(ctx.work, "MC_Lifecycle", cfg_with("lc_code.cfg", "MC_Lifecycle_quick.cfg", sw), workers=4, timeout=900, coverage=False)
+    ctx.add_tlc(res, "Lifecycle.tla (CloseReaderOnKill=%s)" % sw)
     if res.violation:
-        raise runner.Machinery("Lifecycle.tla: %s" % (res.violation,))
-    hists = sorted({tuple(json.loads(json.loads(l))[1]) for l in res.out.splitlines() if l.startswith('"[\\"HIST')})
+        ctx.violation("C20 Lifecycle.tla with the switch values of the code (CloseReaderOnKill=%s): %s violated: a feeder thread blocked "
+                      "sending a payload larger than the pipe buffer is never released when the workers are killed; last state %s"
+                      % (sw, res.violation, res.trace[-1][1] if res.trace else None),
+                      dict(engine="TLC", spec="Lifecycle.tla", cfg="lc_code.cfg", trace=[[a, {k: str(v) for k, v in st.items()}] for a, st in res.trace]),
+                      signature=dict(kind="design", spec="Lifecycle", invariant=str(res.violation)))
+    # (2) the specification can express the defect: without the switch the invariant fails
+    res2 = tlc.check(ctx.work, "MC_Lifecycle", cfg_with("lc_noclose.cfg", "MC_Lifecycle_quick.cfg", "FALSE"), workers=4, timeout=900, coverage=False)
+    if not res2.violation:
+        raise runner.Machinery("Lifecycle.tla with CloseReaderOnKill=FALSE should violate ReleasedMeansNothingOwned (vacuity guard)")
+    ctx.extra["lifecycle_switch_off_violates"] = str(res2.violation)
+    # (3) generator
+    res3 = tlc.check(ctx.work, "MC_Lifecycle", "MC_Lifecycle_gen.cfg", workers=4, timeout=900, coverage=False)
+    if res3.violation:
+        raise runner.Machinery("Lifecycle.tla generator: %s" % (res3.violation,))
+    hists = set()
+    for l in res3.out.splitlines():
+        if l.startswith('"[\\"HIST'):
+            h = json.loads(json.loads(l))[1]
+            hists.add(json.dumps(h, sort_keys=True))
+    hists = sorted(hists)
     if not hists:
         raise runner.Machinery("Lifecycle.tla emitted no history")
+    ph["tlc_lifecycle"] = round(time.time() - t0, 1)
+    t0 = time.time()
+    hists = [json.loads(h) for h in hists]
     total = len(hists)
-    if ctx.tier != "thorough":
-        singles = [h for h in hists if len(h) == 1]
-        pairs = [h for h in hists if len(h) == 2]
-        pairs = [h for i, h in enumerate(pairs) if (i + ctx.seed) % 6 == 0]
-        hists = singles + pairs
+    singles = [h for h in hists if len(h) == 1]
+    pairs = [h for h in hists if len(h) == 2]
+    import random
+    rng = random.Random(ctx.seed * 7919 + 5)
+    rng.shuffle(pairs)
+    hists = singles + pairs[:(40 if ctx.tier != "thorough" else 1500)]
     reps = 3
-    nsh = 12
+    nsh = 32
     files = []
     for k in range(nsh):
         f = os.path.join(ctx.work, "lc_in_%d.jsonl" % k)
@@ -47,8 +77,11 @@ def run(ctx):
         outs = [r for o in ex.map(one, range(nsh)) for r in o]
     if len(outs) != len(hists):
         raise runner.Machinery("lifecycle runs: %d of %d" % (len(outs), len(hists)))
+    ph["real_lifecycles"] = round(time.time() - t0, 1)
+    ctx.extra["slowest_histories"] = [[r.get("seconds"), r["hist"]] for r in sorted(outs, key=lambda r: -(r.get("seconds") or 0))[:5]]
+    t0 = time.time()
     for r in outs:
-        ctx.case(key="lc:" + json.dumps(r["hist"]), nontrivial=len(r["hist"]) > 1 or r["hist"][0] not in ("plain_clean", "plain_ctx"))
+        ctx.case(key="lc:" + json.dumps(r["hist"]), nontrivial=len(r["hist"]) > 1 or r["hist"][0]["end"] not in ("wait", "ctx") or r["hist"][0]["load"] != "small")
         if "error" in r:
             # a lifecycle that hangs or raises is a harness/other-property matter, reported as machinery failure here
             raise runner.Machinery("lifecycle history %s did not complete: rc=%s %s" % (r["hist"], r.get("rc"), r["error"][-600:]))
@@ -67,8 +100,10 @@ def run(ctx):
     ctx.sample(dict(history=outs[len(outs) // 2]["hist"], after_once=outs[len(outs) // 2]["once"], after_repeats=outs[len(outs) // 2]["many"]))
     ctx.assumptions += ["resource counts: /proc/self/fd, threading.active_count(), children of the process incl. zombies (tracker processes "
                         "excepted), /dev/shm/sem.loky-<pid>-*; measured after gc.collect() once three consecutive samples agree",
-                        "lifecycle kinds are those of Lifecycle.tla; quick executes all single lifecycles and every 6th pair"]
+                        "lifecycles are the records [pool, load, busy, end] of Lifecycle.tla; quick executes all %d single lifecycles and 40 seed-chosen pairs, "
+                        "thorough 1500 pairs" % len(singles)]
     exec_common.run_property(ctx, "C20", ["mixed", "crash", "kill", "timeout"], 300, 3000, classify=exec_findings.classify)
+    ph["esim_and_slices"] = round(time.time() - t0, 1)
     ctx.rule = ("E-REAL: one fresh interpreter per history generated by TLC from Lifecycle.tla, executed once then 3 more times, counts "
                 "compared; E-SIM: Mon_Exec[C20] requires no process / management thread left once a lifecycle completed")
 
